@@ -1282,14 +1282,18 @@ class VM:
                 arr._elements.insert(i, arg)
             return arr.length
 
+        def value_to_string(value):
+            # ToString: a nested array is joined in turn, an object asked for
+            # its string
+            if isinstance(value, JSObject):
+                return vm._object_to_string(value)
+            return to_string(value)
+
         def array_elem_to_string(elem):
             # undefined and null convert to empty string in array join/toString
             if elem is UNDEFINED or elem is NULL:
                 return ""
-            if isinstance(elem, JSObject):
-                # A nested array is joined in turn, an object asked for its string
-                return vm._object_to_string(elem)
-            return to_string(elem)
+            return value_to_string(elem)
 
         def join_elements(sep):
             # An array that is already being joined further out (it contains
@@ -1515,9 +1519,10 @@ class VM:
 
             # Default string comparison
             def default_compare(a, b):
-                # Convert to strings and compare
-                str_a = to_string(a)
-                str_b = to_string(b)
+                # Convert to strings and compare (objects by their own toString,
+                # nested arrays by joining)
+                str_a = value_to_string(a)
+                str_b = value_to_string(b)
                 if str_a < str_b:
                     return -1
                 if str_a > str_b:
